@@ -218,6 +218,8 @@ type omapIter struct {
 	m     *omap
 	pos   int
 	order []int // optional permutation (nondeterministic-order regions)
+	ex    *exec
+	n0    int // number of entry slots when the range statement started
 }
 
 func (it *omapIter) next() tuple {
@@ -236,8 +238,20 @@ func (it *omapIter) next() tuple {
 	}
 	for it.pos < len(it.m.entries) {
 		e := it.m.entries[it.pos]
+		created := it.pos >= it.n0
 		it.pos++
 		if e != nil {
+			if created && it.ex != nil {
+				// Go spec: an entry created during iteration "may be produced during the
+				// iteration or may be skipped" - both are explored
+				if it.ex.choose(2, "map-entry-created-during-range") == 1 {
+					// run-time nondeterminism, like a schedule: noted so that a counterexample
+					// built on it is reported with this trace instead of a native replay
+					it.ex.sched.log = append(it.ex.sched.log, "map range: entry created during the iteration is skipped")
+					continue
+				}
+				it.ex.sched.log = append(it.ex.sched.log, "map range: entry created during the iteration is produced")
+			}
 			return tuple{true, e.key, e.val}
 		}
 	}
